@@ -529,9 +529,17 @@ def run(tier, seed, rep):
     nblocks = len(blocks)
     # heavy configurations first (pool balance); the seed rotates inside equal-cost groups only by order
     blocks = core.rotate(blocks, seed)
-    blocks.sort(key=lambda b: -(len(b['events']) * (1 + len(b['template']['alts']))))
-    core.merge_all(run_block, blocks, rep)
-    return {'exhaustive': True,
+    cost = lambda b: len(b['events']) * (1 + len(b['template']['alts']))
+    blocks.sort(key=cost)
+    ncheap = len(blocks) // 4
+    blocks = blocks[:ncheap] + sorted(blocks[ncheap:], key=lambda b: -cost(b))   # a few cheap ones, then longest first
+    aborted = False
+    for r in core.pmap(run_block, blocks):
+        rep.merge(r)
+        if rep.nviolations >= 25:
+            aborted = True          # plenty of counterexamples: the remaining blocks add nothing to the verdict
+            break
+    return {'exhaustive': not aborted, 'aborted_after_violations': aborted,
             'bounds': {'history_length': depth, 'templates': len(TEMPLATES),
                        'charsub_x_reserved': ['%s/%s' % c for c in combos],
                        'configurations': len(TEMPLATES) * len(combos),
